@@ -344,8 +344,8 @@ impl Ctx {
     }
 
     /// Replay the regression inputs of the known findings and every stored replay file for this property.
-    /// A known finding that still fails prints its KNOWN-FINDING line.
-    pub fn replay_tier(&mut self, check: &dyn Fn(&Value) -> Verdict) {
+    /// A known finding that still fails prints its KNOWN-FINDING line. Returns false when a regression input fails.
+    pub fn replay_tier(&mut self, check: &dyn Fn(&Value) -> Verdict) -> bool {
         let known = self.known.clone();
         for k in &known {
             if k.regression.is_null() {
@@ -395,6 +395,8 @@ impl Ctx {
             }
             self.stats.label("replayed_regression_file");
         }
+        // a failing regression input is reported at once; the random search behind it is skipped
+        self.failures.is_empty()
     }
 
     pub fn print_known(&mut self, k: &KnownFinding) {
@@ -426,8 +428,23 @@ impl Ctx {
         let known = &self.known;
         let seed = self.seed;
         let part_hash = hash_of(&(self.property.as_str(), part));
+        let slots: Vec<Mutex<Option<(Instant, Value)>>> = (0..shards).map(|_| Mutex::new(None)).collect();
+        let done = AtomicBool::new(false);
+        let live = std::sync::atomic::AtomicU64::new(shards);
+        let property = self.property.clone();
         std::thread::scope(|scope| {
+            {
+                let slots = &slots;
+                let done = &done;
+                let property = property.clone();
+                scope.spawn(move || watchdog(&property, done, &|| {
+                    slots.iter().filter_map(|s| s.lock().unwrap().clone()).collect()
+                }));
+            }
             for shard in 0..shards {
+                let slots = &slots;
+                let done = &done;
+                let live = &live;
                 let stop = stop.clone();
                 let merged = &merged;
                 let strategy = &strategy;
@@ -463,7 +480,9 @@ impl Ctx {
                                 return Ok(());
                             }
                             let record = render(&value);
+                            *slots[shard as usize].lock().unwrap() = Some((Instant::now(), record.clone()));
                             let verdict = check(&record);
+                            *slots[shard as usize].lock().unwrap() = None;
                             if failed.get() {
                                 // shrinking: do not count, only classify
                                 return match verdict {
@@ -487,6 +506,9 @@ impl Ctx {
                                 }
                             }
                         });
+                        if live.fetch_sub(1, Ordering::SeqCst) == 1 {
+                            done.store(true, Ordering::SeqCst);
+                        }
                         let mut m = merged.lock().unwrap();
                         m.0.merge(stats.into_inner());
                         match result {
@@ -546,8 +568,28 @@ impl Ctx {
         let next = std::sync::atomic::AtomicU64::new(0);
         let stop = AtomicBool::new(false);
         const CHUNK: u64 = 512;
+        let slots: Vec<(std::sync::atomic::AtomicU64, Mutex<Option<Instant>>)> =
+            (0..shards).map(|_| (std::sync::atomic::AtomicU64::new(0), Mutex::new(None))).collect();
+        let done = AtomicBool::new(false);
+        let live = std::sync::atomic::AtomicU64::new(shards);
+        let property = self.property.clone();
         std::thread::scope(|scope| {
-            for _ in 0..shards {
+            {
+                let slots = &slots;
+                let done = &done;
+                let make = &make;
+                let property = property.clone();
+                scope.spawn(move || watchdog(&property, done, &|| {
+                    slots
+                        .iter()
+                        .filter_map(|s| s.1.lock().unwrap().map(|t| (t, make(s.0.load(Ordering::SeqCst)))))
+                        .collect()
+                }));
+            }
+            for shard in 0..shards {
+                let slots = &slots;
+                let done = &done;
+                let live = &live;
                 let merged = &merged;
                 let make = &make;
                 let check = &check;
@@ -563,7 +605,11 @@ impl Ctx {
                             if begin >= count || stop.load(Ordering::Relaxed) {
                                 break;
                             }
+                            // the watchdog sees the chunk start; a chunk of 512 cases is far below its limit
+                            slots[shard as usize].0.store(begin, Ordering::SeqCst);
+                            *slots[shard as usize].1.lock().unwrap() = Some(Instant::now());
                             for i in begin..(begin + CHUNK).min(count) {
+                                slots[shard as usize].0.store(i, Ordering::Relaxed);
                                 let mut verdict = check(i);
                                 if distinct_by_construction {
                                     if let Verdict::Pass { nontrivial, .. } = &mut verdict {
@@ -581,6 +627,10 @@ impl Ctx {
                                     break 'outer;
                                 }
                             }
+                        }
+                        *slots[shard as usize].1.lock().unwrap() = None;
+                        if live.fetch_sub(1, Ordering::SeqCst) == 1 {
+                            done.store(true, Ordering::SeqCst);
                         }
                         let mut m = merged.lock().unwrap();
                         m.0.merge(stats);
@@ -711,6 +761,35 @@ impl Ctx {
         let n = self.stats.labels.get(label).copied().unwrap_or(0);
         if n < min {
             self.infra_errors.push(format!("generator class '{}' seen {} times, expected at least {}", label, n, min));
+        }
+    }
+}
+
+/// Limit for a single case before the run is declared inconclusive (exit 2): the code under test
+/// does not terminate (or is pathologically slow) on the in-flight input. Never a VIOLATION here;
+/// C08, whose subject is termination, supervises child processes instead.
+pub fn watchdog_limit() -> std::time::Duration {
+    std::time::Duration::from_secs(std::env::var("VERIF_WATCHDOG_S").ok().and_then(|s| s.parse().ok()).unwrap_or(90))
+}
+
+fn watchdog(property: &str, done: &AtomicBool, inflight: &dyn Fn() -> Vec<(Instant, Value)>) {
+    let limit = watchdog_limit();
+    while !done.load(Ordering::SeqCst) {
+        std::thread::sleep(std::time::Duration::from_millis(200));
+        for (t, rec) in inflight() {
+            if t.elapsed() > limit {
+                let dir = "/tmp/verif-scratch/hangs";
+                let _ = std::fs::create_dir_all(dir);
+                let path = format!("{}/{}-{:016x}.json", dir, property, hash_of(&rec.to_string()));
+                let _ = std::fs::write(&path, serde_json::to_string_pretty(&json!({"property": property, "record": rec})).unwrap());
+                eprintln!(
+                    "INFRASTRUCTURE: watchdog: one case of {} has been running for more than {} s (non-termination or pathological slowness in the code under test); in-flight input saved to {}; run is inconclusive",
+                    property,
+                    limit.as_secs(),
+                    path
+                );
+                std::process::exit(2);
+            }
         }
     }
 }
